@@ -84,7 +84,8 @@ class World:
         base = 20000 + g.rint(0, 30000)
         self.names = names if names is not None else g.pick([
             "svc.test", "urn:service:sos", "svc.test, urn:service:sos", "alice@svc.test,urn:service:sos",
-            "^sip[0-9]+@pbx.test$, svc.test", "tel:112, svc.test"])
+            "^sip[0-9]+@pbx.test$, svc.test", "tel:112, svc.test", "tel:+15550100, svc.test", "svc.test, a+b@svc.test, tel:+1(555)0100",
+            "urn:service:sos, c++@svc.test"])
         self.keep = g.chance(0.5) if keep is None else keep
         self.listeners = []
         for i in range(nlisten):
@@ -110,6 +111,7 @@ class World:
                 self.obs.append("%s:%d" % (ip, p))
         for l in self.listeners:
             self.obs += ["%s:%d" % (LISTEN_IP, l.port + 1), "127.0.0.9:%d" % l.port, "127.0.3.2:%d" % l.port]
+        self.obs.append("%s:5060" % LISTEN_IP)      # (listeners are doubles: nothing of the proxy is bound there)
         self.obs += ["127.0.2.%d:5060" % i for i in (1, 2, 3)]
         self.obs = sorted(set(self.obs))
         self.learned = {}        # host -> Listener (generator's own bookkeeping of the property's "learned")
@@ -314,7 +316,9 @@ def hxs(entries):
 def via_stack(g, w, n, peer_ip, top_matches_peer=False):
     vs = []
     for i in range(n):
-        host = g.pick(["127.0.2.1", "127.0.2.2", "ua1.test", "ua2.test", "10.9.8.7", "far.example.org", "127.0.2.3"])
+        # (hosts that later requests are routed to appear here too: being listed in a Via is learning)
+        host = g.pick(["127.0.2.1", "127.0.2.2", "ua1.test", "ua2.test", "10.9.8.7", "far.example.org", "127.0.2.3",
+                       "127.0.3.1", "127.0.3.2", "hop1.test", "hop2.test", "127.0.3.3", "127.0.3.1", "hop1.test"])
         port = g.pick([None, None, w.port_ua, 5060, 5070])
         ps = [("branch", "z9hG4bK" + g.word(ALNUM.upper(), 5, 10))]
         if g.chance(0.3):
@@ -348,13 +352,13 @@ def gen_request_case(g, tier, focus=None, c17=None):
             user, host = g.pick(["", "bob", "carol"]), "svc.test"
             ru = sip_uri_text(g, user, host)
         elif ru_kind == "userhost":
-            user, host = g.pick(["alice", "bob"]), "svc.test"
+            user, host = g.pick(["alice", "bob", "a+b", "c++", "ab"]), "svc.test"
             ru = sip_uri_text(g, user, host, params=g.pick(["", ";user=phone", ";transport=tcp"]))
         elif ru_kind == "urn":
             kind, whole = "abs", g.pick(["urn:service:sos", "urn:service:sos.fire", "urn:service:other"])
             ru = whole
         elif ru_kind == "tel":
-            kind, whole = "abs", g.pick(["tel:112", "tel:+15551234", "tel:112;phone-context=x.test"])
+            kind, whole = "abs", g.pick(["tel:112", "tel:+15551234", "tel:112;phone-context=x.test", "tel:+15550100", "tel:+15550100", "tel:15550100", "tel:+1(555)0100"])
             ru = whole
         elif ru_kind == "listener":
             user, host = g.pick(["", "x"]), lst.addr
@@ -393,12 +397,18 @@ def gen_request_case(g, tier, focus=None, c17=None):
         elif route_mode == "own+next+more":
             routes = [rentry(g.pick(own_variants)), rentry(next_uri)] + [rentry("sip:far%d.example.org;lr" % i) for i in range(g.rint(1, 3))]; own_first = True
         elif route_mode == "nearmiss+next":
-            miss = g.pick([sip_uri_text(g, "", lst.addr, lst.port + 1, ";lr"), sip_uri_text(g, "", "127.0.0.9", lst.port, ";lr"),
-                           sip_uri_text(g, "", "hop2.test", lst.port, ";lr")])
+            misses = [sip_uri_text(g, "", lst.addr, lst.port + 1, ";lr"), sip_uri_text(g, "", "127.0.0.9", lst.port, ";lr"),
+                      sip_uri_text(g, "", "hop2.test", lst.port, ";lr")]
+            if lst.port != 5060:
+                # right host, no port written: designates port 5060, not this listener
+                misses += [sip_uri_text(g, "", lst.addr, None, ";lr"), sip_uri_text(g, "", "proxy.test", None, ";lr")] * 2
+            miss = g.pick(misses)
             routes = [rentry(miss), rentry(next_uri)]
             # the near miss itself is the next hop
             m = re.match(r"sip:([^:;]+)(?::(\d+))?", miss)
             nh_host, nh_port, nh_tr = m.group(1), int(m.group(2) or 5060), ""
+            if nh_host == "proxy.test" or (nh_host == lst.addr and nh_port == 5060):
+                nh_host = nh_host
         s1 = routes[1:] if own_first else routes
         # ---- expected destination by fixed precedence ----
         by = None
@@ -626,8 +636,8 @@ def gen_dialog_case(g, tier, c17=None):
                 code = g.pick([180, 183, 200, 200])
                 own = Via("UDP", lst.addr, lst.port, [("branch", "z9hG4bKown" + g.word(ALNUM, 4, 6))])
                 back = ua_via.stamped(ua_ip, w.port_ua)
-                r = dialog_resp(c, g, code, "INVITE", d, [own, back], extra=[("Expires", str(g.pick([0, 60, 7200])))] if g.chance(0.3) else None)
-                raw(r, bip, int(bport), ["spec=C02 " + expect_dest("U", "%s:%d" % (ua_ip, w.port_ua))])
+                r = dialog_resp(c, g, code, "INVITE", d, [own, back], extra=[(spell(g, "Expires", g.sp_pick([0, 2, 3, 4])), g.pick(["0", "60", "7200", "0600", "+90", "007", "3600 ", "1e3", "x"]))] if g.chance(0.5) else None)
+                raw(r, bip, int(bport), ["spec=C02 " + expect_dest("U", "%s:%d" % (ua_ip, w.port_ua)), "spec=C01 relay"])
                 d.pinned = True
                 g.count("dlg_invite_pinned")
             else:
@@ -637,8 +647,8 @@ def gen_dialog_case(g, tier, c17=None):
                 own = Via("UDP", lst.addr, lst.port, [("branch", "z9hG4bKown" + g.word(ALNUM, 4, 6))])
                 bvia = Via("UDP", bip, int(bport), [("branch", "z9hG4bK" + g.word(ALNUM.upper(), 6, 9))])
                 d.cseq += 1
-                r = dialog_resp(c, g, g.pick([200, 202]), "SUBSCRIBE", d, [own, bvia])
-                raw(r, ua_ip, w.port_ua, ["spec=C02 " + expect_dest("U", d.backend)])
+                r = dialog_resp(c, g, g.pick([200, 202]), "SUBSCRIBE", d, [own, bvia], extra=[("Expires", g.pick(["0600", "+90", "3600"]))] if g.chance(0.4) else None)
+                raw(r, ua_ip, w.port_ua, ["spec=C02 " + expect_dest("U", d.backend), "spec=C01 relay"])
                 d.pinned = True
                 g.count("dlg_subscribe_pinned")
             continue
@@ -653,7 +663,7 @@ def gen_dialog_case(g, tier, c17=None):
             terminate = (ss == "terminated")
         m = dialog_msg(c, g, method, svc_ru, d, from_caller, extra=extra, vias=[ua_via])
         if d.pinned:
-            raw(m, ua_ip, w.port_ua, ["spec=C04 " + expect_dest("B", None, [d.backend])])
+            raw(m, ua_ip, w.port_ua, ["spec=C04 " + expect_dest("B", None, [d.backend]), "spec=C01 relay"])
             g.count("dlg_indialog_" + method)
         else:
             raw(m, ua_ip, w.port_ua, ["spec=C04 " + expect_dest("B", None, w.backends[0])])
@@ -709,6 +719,10 @@ def gen_tcp_case(g, tier):
             continue
         cn = g.pick(conns)
         br = "z9hG4bK" + g.word(ALNUM.upper(), 6, 10)
+        if pending and g.chance(0.35):
+            # distinct branch that extends (or is a prefix of) the branch of a transaction still open
+            ob = g.pick(pending)["via"].get("branch")
+            br = g.pick([ob + g.pick(["1", "0", "-1", "x"]), ob[:-1] if len(ob) > 9 else ob + "7"])
         while br in branches:
             br = "z9hG4bK" + g.word(ALNUM.upper(), 6, 10)
         branches.add(br)
